@@ -19,6 +19,12 @@ func usage() {
 }
 
 func main() {
+	if len(os.Args) >= 2 {
+		if w, ok := checks.Workers[os.Args[1]]; ok {
+			w()
+			return
+		}
+	}
 	if len(os.Args) < 3 {
 		usage()
 	}
